@@ -66,6 +66,8 @@ def run(chk):
             lines.append('o_tfm\t%d %d %d %d %d %d %d %d' % (i, seed + 3, rng.choice([2, 3, 4]), rng.choice([0, 12, 15, 20, 30, 41]),
                                                                rng.choice([0, 0, 5, 16]), rng.choice([0, 0, 7]), rng.choice([0, 0, 9, 24]),
                                                                rng.randint(0, 1)))
+    # the recorded witnesses of finding C14-half-l-odd (half-l grid built for an odd size along l), both axis orders
+    lines += ['o_map\t0 849373 5 7 9 1 1 2', 'o_map\t0 849373 5 7 9 1 0 2', 'o_variants\t0 849375 5 7 9']
     res = vlib.correspond(chk, h, d, lines, timeout=3000)
     for l in res['outputs']:
         p = l.split('\t')
